@@ -42,6 +42,7 @@ use super::*;
 //@fn UserFunctions::call
 //@fn Symbols::get
 //@fn is_reserved_keyword
+//@fn is_valid_identifier
 //@fn UserFunctions::add_boxed_function
 //@fn ruleset
 //@fn Builder::with_rule
